@@ -51,6 +51,13 @@ class Lower:
         if k in ('exists', 'notexists'):
             r = ['exists', self.subquery(e[1])]
             return r if k == 'exists' else ['not', r]
+        if k in ('between', 'notbetween'):
+            # SQL: x BETWEEN lo AND hi  ==  x >= lo AND x <= hi (three-valued); NOT BETWEEN is its negation
+            x, lo, hi = self.expr(e[1]), self.expr(e[2]), self.expr(e[3])
+            r = ['and', ['>=', x, lo], ['<=', x, hi]]
+            return r if k == 'between' else ['not', r]
+        if k == 'case':
+            return ['if', self.expr(e[1]), self.expr(e[2]), 'null' if e[3] is None else self.expr(e[3])]
         if k == 'agg':
             f, a = e[1], e[2]
             if f == 'count*':
